@@ -233,7 +233,7 @@ Theorem eval_rm_only :
 Proof.
   induction n as [nm v i|nm v|t|s body IH|sel body IH] using node_ind'; intros Hro parent sc; try contradiction.
   - cbn [rm_only] in Hro. eexists. split.
-    + cbn [eval_node]. rewrite preprocess_plain by assumption. unfold value_fuel. rewrite eval_value_plain by assumption. reflexivity.
+    + cbn [eval_node]. rewrite preprocess_plain by assumption. rewrite eval_value_plain_vf by assumption. reflexivity.
     + reflexivity.
   - apply rm_only_body in Hro as [Hsel Hbody].
     cbn [eval_node].
